@@ -143,3 +143,15 @@ Theorem C05_client_surfaces : forall f i c msg,
   check_for_errors (err_obj f i c msg) = Raise (EProtocol (VTuple [VInt c; VStr msg])).
 Proof. exact client_surfaces. Qed.
 Print Assumptions C05_client_surfaces.
+
+(** end to end: the code (and message) of the Fault the default dispatch returns is the code of the
+    reply to the request, which carries the request's id; the reply's log is the dispatch's log —
+    combine with C05_unknown_method / C05_private_segment / C05_bad_arity / C05_method_exception *)
+Theorem C05_fault_code_surfaces : forall body sigs srvf srv e m s c msg log,
+  e = VDict m -> wellformed_entry e = true -> no_id e = false -> method_of e = Some s ->
+  dispatch body sigs (sv_reg srv) s (params_of e) = (DFault c msg, log) ->
+  exists o, answer_entry body sigs srvf srv None e = (Some o, log)
+            /\ reply_code o = Some (VInt c) /\ reply_message o = Some (VStr msg)
+            /\ reply_id o = Some (usable_id e).
+Proof. exact fault_code_surfaces. Qed.
+Print Assumptions C05_fault_code_surfaces.
